@@ -712,7 +712,50 @@ void spherical(vf::Ctx & c)
   if (isF) {sphericalBody<float>(c, n, az, el);} else {sphericalBody<double>(c, n, az, el);}
 }
 
+
+// The derivative-carrying rotation helper must produce "the same matrix" as the other builders whatever the object
+// went through before: one SmartRotation3D object re-initialised 2..6 times through both init overloads, with angle
+// triples that are new or exactly those of an earlier initialisation; after every init R() must equal a fresh
+// object's R() bit for bit and the explicit Rz*Ry*Rx to rounding.
+void rotationHelperReuse(vf::Ctx & c)
+{
+  const double PI_ = 3.14159265358979323846;
+  int n = static_cast<int>(c.s.i("n_inits", 2, 6));
+  std::vector<Eigen::Vector3d> angles;
+  std::vector<int> overload;
+  bool repeated = false;
+  for (int k = 0; k < n; ++k) {
+    if (k >= 1 && c.s.flag("repeat_earlier_angles", 1, 3)) {
+      angles.push_back(angles[static_cast<size_t>(c.s.i("which_earlier", 0, k - 1))]);
+      repeated = true;
+    } else {
+      angles.push_back(Eigen::Vector3d(c.s.r("roll", -2 * PI_ + 1e-9, 2 * PI_ - 1e-9), c.s.r("pitch", -(PI_ / 2 - 1e-3), PI_ / 2 - 1e-3), c.s.r("yaw", -2 * PI_ + 1e-9, 2 * PI_ - 1e-9)));
+    }
+    overload.push_back(static_cast<int>(c.s.i("init_overload", 0, 1)));
+  }
+  bool startDefault = c.s.flag("start_from_default_object");
+  if (repeated) {c.label("same-angles-initialised-again");}
+  c.nontrivial();
+  c.commit();
+  rc_::SmartRotation3D obj = startDefault ? rc_::SmartRotation3D() : rc_::SmartRotation3D(angles[0]);
+  for (int k = 0; k < n; ++k) {
+    if (k > 0 || startDefault) {
+      if (overload[k]) {obj.init(angles[k]);} else {obj.init(angles[k][0], angles[k][1], angles[k][2]);}
+    }
+    rc_::SmartRotation3D fresh(angles[k][0], angles[k][1], angles[k][2]);
+    Eigen::Matrix3d ref = (Eigen::AngleAxisd(angles[k][2], Eigen::Vector3d::UnitZ()) * Eigen::AngleAxisd(angles[k][1], Eigen::Vector3d::UnitY()) *
+      Eigen::AngleAxisd(angles[k][0], Eigen::Vector3d::UnitX())).toRotationMatrix();
+    VF_CHECK(c, obj.R() == fresh.R(), "init #%d (%s overload): R() of the re-initialised helper differs from a freshly constructed one (max %.3g): state of an earlier initialisation leaked",
+      k, overload[k] ? "vector" : "scalar", (obj.R() - fresh.R()).cwiseAbs().maxCoeff());
+    double d = (obj.R() - ref).cwiseAbs().maxCoeff();
+    VF_CHECK(c, d <= 32 * 2.220446049250313e-16, "init #%d: R() differs from the explicit Rz*Ry*Rx by %.3g", k, d);
+  }
+}
+
 const std::vector<vf::Sub> kSubs = {
+  {"rotation_helper_reuse", rotationHelperReuse,
+    "one SmartRotation3D object re-initialised 2..6 times (both init overloads, optionally starting from a default-constructed object) with "
+    "new angle triples or exactly an earlier one; R() must equal a fresh object's bit for bit and Rz*Ry*Rx to 32 eps. Every case non-trivial."},
   {"euler_roundtrip", eulerRoundTrip,
     "roll, yaw in (-2pi,2pi): 0 / boundary-biased over the range (ends become +-(2pi - ulp)) / packed around k*pi/2 (10^-2..10^-15, +-ulps) / "
     "k*pi/2; pitch in [-(pi/2-1e-3), pi/2-1e-3] incl. packed at the margin; float or double (values rounded to the scalar type and kept "
